@@ -48,10 +48,7 @@ Print Assumptions C42_cidr_mask.
 Theorem C42_operators_numeric_except : forall x y, y < TOP ->
   (~ (x = V4ANY /\ lowv6 y) -> addr_lt x y = (x <? y) /\ addr_le x y = (x <=? y)) /\
   (~ (x = V4NO /\ highv6 y) -> addr_gt x y = (y <? x) /\ addr_ge x y = (y <=? x)).
-Proof.
-  exact (fun x y Hy => conj (fun H => conj (addr_lt_num x y H) (addr_le_num x y H))
-                            (fun H => conj (addr_gt_num x y Hy H) (addr_ge_num x y Hy H))).
-Qed.
+Proof. exact operators_numeric_except. Qed.
 Print Assumptions C42_operators_numeric_except.
 
 (* ... and in those two situations they are not an order at all *)
@@ -67,7 +64,7 @@ Print Assumptions C42_operators_not_an_order_refuted.
 Theorem C42_first_last_are_the_set_ends : forall c, cv_ok c ->
   first_addr (cv_val c) = cv_lo c /\ last_addr (cv_val c) = cv_hi c /\
   (forall x, cv_in x c <-> cv_lo c <= x <= cv_hi c).
-Proof. exact (fun c H => conj (cv_first c H) (conj (cv_last c H) (fun x => iff_refl _))). Qed.
+Proof. exact first_last_ends. Qed.
 Print Assumptions C42_first_last_are_the_set_ends.
 
 (* aclIpAddrNetworkCompare(client, value): negative below the set, zero inside, positive above *)
@@ -115,14 +112,7 @@ Theorem C42_parse_disjoint_same_union_partial : forall toks cs,
     (forall x, In x (inorder t) -> first_addr x <= last_addr x) /\
     (forall A x B y C, inorder t = A ++ x :: B ++ y :: C -> last_addr x < first_addr y) /\
     (forall q, (exists w, In w (inorder t) /\ first_addr w <= q <= last_addr w) <-> (exists c, In c cs /\ cv_in q c)).
-Proof.
-  exact (fun toks cs HP HV Hok Q =>
-    match acl_parse_ok toks cs HP HV Hok Q with
-    | ex_intro _ t (ex_intro _ n (conj E St)) =>
-        ex_intro _ t (ex_intro _ n (conj E (conj (proj1 (stored_disjoint cs t St))
-                                            (conj (proj2 (stored_disjoint cs t St)) (proj2 St)))))
-    end).
-Qed.
+Proof. exact parse_disjoint_same_union. Qed.
 Print Assumptions C42_parse_disjoint_same_union_partial.
 
 (* ===== the property ===== *)
@@ -157,7 +147,7 @@ Print Assumptions C42_ipv4_lists_need_no_side_condition.
 Theorem C42_global_words :
   parse_global s_all = Some (true, true) /\ parse_global s_ipv4 = Some (true, false) /\
   parse_global s_ipv6 = Some (false, true) /\ parse_global tok_x = None.
-Proof. exact (conj eq_refl (conj eq_refl (conj eq_refl eq_refl))). Qed.
+Proof. exact global_words. Qed.
 Print Assumptions C42_global_words.
 
 (* ===== the statement without the side condition is false for the code as it is ===== *)
@@ -211,32 +201,17 @@ Proof. exact reversed_range_witness. Qed.
 Print Assumptions C42_reversed_range_frees_stored_value.
 
 (* ===== the hypotheses are satisfiable ===== *)
-Example C42_ex_values_ok :
-  Forall cv_ok [CNet (V4ANY + 167772160) 24; CRange (V4ANY + 3232237328) (V4ANY + 3232237335) 0; CNet db8_1 0].
-Proof.
-  repeat (apply Forall_cons || apply Forall_nil).
-  - cbn [cv_ok]. split; [lia|]. split; [rewrite V4ANY_val, TOP_val; lia|]. vm_compute. reflexivity.
-  - apply cv_ok_range0; rewrite ?V4ANY_val, ?TOP_val; lia.
-  - apply cv_ok_net0. unfold db8_1. rewrite TOP_val. lia.
-Qed.
+(* 10.0.0.0/8, 192.168.7.16-192.168.7.23, 2001:db8::1 *)
+Example C42_ex_values_ok : Forall cv_ok [CNet net10 24; CRange blk_lo blk_hi 0; CNet db8_1 0].
+Proof. exact ex_values_ok. Qed.
 
 Example C42_ex_plain_tokens : forall cs,
   Forall tok_parsed (plain_toks cs) /\ vals_of (plain_toks cs) = map cv_val cs.
-Proof. exact (fun cs => conj (plain_toks_parsed cs) (plain_toks_vals cs)). Qed.
+Proof. exact ex_plain_tokens. Qed.
 
-Example C42_ex_quirk_free_mixed :
-  (* 10.0.0.0/8 next to 2001:db8::1, address 2001:db8::5 looked up *)
-  quirk_free [CNet (V4ANY + 167772160) 24; CNet db8_1 0] db8_5.
-Proof.
-  split.
-  - left. intros e He L. unfold lowv6 in L. cbn [points flat_map pts_of app In] in He.
-    change (2 ^ 24) with 16777216 in He. change (2 ^ 0) with 1 in He. unfold db8_1 in He.
-    rewrite V4ANY_val in *. lia.
-  - right. split; intros He; cbn [points probe_points flat_map map pts_of app In cv_val mk] in He;
-      [change (2 ^ 24) with 16777216 in He; change (2 ^ 0) with 1 in He; unfold db8_1 in He;
-       rewrite V4ANY_val, V4NO_val in *; lia|].
-    destruct He as [He|[He|[He|[]]]]; vm_compute in He; discriminate.
-Qed.
+(* 10.0.0.0/8 next to 2001:db8::1, address 2001:db8::5 looked up *)
+Example C42_ex_quirk_free_mixed : quirk_free [CNet net10 24; CNet db8_1 0] db8_5.
+Proof. exact ex_quirk_free_mixed. Qed.
 
 Example C42_ex_tameA : tameA db8_5 (cv_val (CRange db8_1 db8_5 0)).
-Proof. split; vm_compute; reflexivity. Qed.
+Proof. exact ex_tameA. Qed.
